@@ -281,6 +281,18 @@ def gen(tier, seed):
         C.append(dict(kind='henry', specs=[('model', 'Henry', {'K': k}, 'absolute') for k in Ks], p=pressures(n, False), guess=None))
         M = lu(rnd, 0.5, 10)
         C.append(dict(kind='langmuir_eq', specs=[('model', 'Langmuir', {'K': k, 'n_m': M}, 'absolute') for k in Ks], p=pressures(n, False), guess=None))
+    # B2: the same closed form through the numerically integrated model: Toth with t = 1 IS Langmuir, so a mixture of Langmuir / Toth(t=1) components of
+    #     equal capacity must give the extended-Langmuir loadings - at ordinary AND at trace-level partial pressures (down to 1e-7). Own generator.
+    rb2 = random.Random(seed * 49979687 + 5)
+    for i in range(120 if big else 16):
+        n = rb2.choice([2, 2, 3])
+        Ks = [lu(rb2, 0.05, 20) for _ in range(n)]
+        M = lu(rb2, 0.5, 10)
+        toth = [rb2.random() < 0.6 for _ in range(n)]
+        toth[rb2.randrange(n)] = True
+        base = lu(rb2, 1e-7, 1e-2) if i % 4 else lu(rb2, 1e-2, 20)
+        C.append(dict(kind='langmuir_eq', specs=[('model', 'Toth', {'K': k, 'n_m': M, 't': 1.0}, 'absolute') if tt else ('model', 'Langmuir', {'K': k, 'n_m': M}, 'absolute')
+                                                  for k, tt in zip(Ks, toth)], p=[base * lu(rb2, 1 / 8.0, 1.0) for _ in range(n)], guess=None, sub2='toth-t1'))
     # C: permutations (model isotherms, moderate pressure ratios)
     for i in range(800 if big else 90):
         n = rnd.choice([2, 3, 3, 4])
@@ -388,7 +400,13 @@ def gen(tier, seed):
     #    holding the same rows, marks and units) give, and satisfy the IAST equations for the isotherms given by the data (piecewise linear)
     rh = random.Random(seed * 15485863 + 7)
     fns = ['point', 'reverse', 'fraction', 'point', 'svp', 'vle']
-    for i in range(360 if big else 54):
+    # second stream (own generator, the first one is left as it was): every point isotherm is QUERIED and then CONVERTED FOR GOOD (material unit, loading
+    # unit or pressure unit, staying there) before the IAST call - what the object caches across a permanent conversion must not reach the result
+    rc = random.Random(seed * 32452843 + 11)
+    for i in list(range(360 if big else 54)) + [-1 - k for k in range(90 if big else 14)]:
+        conv = i < 0
+        if conv:
+            rh_keep, rh, i = rh, rc, -1 - i
         fn = fns[i % len(fns)]
         n = 2 if fn in ('svp', 'vle') else rh.choice([2, 2, 3])
         pm_common = lu(rh, 50, 1500)
@@ -401,6 +419,14 @@ def gen(tier, seed):
             else:
                 specs.append(rspec(rh, point_ok=False))
         hist = [random_history(rh, s_, rh.randint(1, 3)) if s_[0] != 'model' else [] for s_ in specs]
+        if conv:
+            for s_, h_ in zip(specs, hist):
+                if s_[0] == 'model':
+                    continue
+                for _ in range(rh.randint(1, 2)):
+                    h_.append([rh.choice(['loading_at', 'loading_at', 'spreading_pressure_at', 'pressure_at']), rh.uniform(0.02, 0.9), {}])
+                    h_.append(rh.choice([['convert_material', None, {'unit_to': rh.choice(['kg', 'mg', 'g'])}], ['convert_material', None, {'unit_to': rh.choice(['kg', 'mg'])}],
+                                         ['convert_loading', None, {'unit_to': rh.choice(['mol', 'mmol'])}], ['convert_pressure', None, {'unit_to': rh.choice(['kPa', 'torr'])}]]))
         # pressures inside the measured range of every point isotherm (rows from pmax * 1e-4 to pmax)
         pms = [s_[4] for s_ in specs if s_[0] != 'model']
         lo, hi = 5e-4 * max(pms), 0.05 * min(pms)
@@ -409,6 +435,8 @@ def gen(tier, seed):
         C.append(dict(kind='history', fn=fn, specs=specs, history=hist, earlier_iast=rh.random() < 0.3, iast_first=rh.random() < 0.5, p=[lu(rh, lo, hi) for _ in range(n)],
                       x=fr, P=hi * rh.uniform(0.6, 1.0) if fn == 'vle' else lu(rh, 16 * lo, 4 * hi), Ps=sorted(lu(rh, 16 * lo, 4 * hi) for _ in range(rh.randint(2, 4))),
                       npoints=rh.choice([3, 5])))
+        if conv:
+            rh = rh_keep
     # F: guards: every model name (whitelist), relative pressure, one component, wrong number of pressures, wrapper argument checks
     for name in ALL_MODELS:
         for fn in ('point', 'reverse'):
@@ -1102,6 +1130,8 @@ def _explore(rep, tier, cases, pg, proxy):
                              'arbitrary order, default and user guesses; all 16 model names x guards; whole-number '
                              'partial / total pressures and dyadic fractions in 9 numeric representations (int list, tuple, int16/32/64 arrays, numpy int scalars, '
                              'float32 array / scalars, float64 array, mixed int-float list) for iast_point, iast_point_fraction, reverse_iast, iast_binary_svp / vle; '
+                             'equal-capacity mixtures of Langmuir and Toth(t=1) components (extended-Langmuir closed form through the numerically integrated model) at partial pressures 1e-8..20; '
+                             'a second history stream where every point isotherm is queried and then converted for good (material unit kg/mg/g, loading unit, pressure unit); '
                              'point isotherms (10-30 rows over four decades, a third with a marked desorption run) carrying a history of 1-3 operations each (loading_at with '
                              'cubic / quadratic / nearest / zero / slinear, fills, the other branch, other units; pressure_at; spreading_pressure_at with a fill; pressure unit '
                              'there and back; loading unit for good; linear then another kind; an earlier IAST call before or after) x iast_point / reverse_iast / '
